@@ -15,8 +15,9 @@ def build(flex, src, work, name, rs, seed, extra_opts=(), sanitize='address,unde
                     epilogue='#include "fvmulti_cxx.cc"\n' if backend == 'cxx' else '#include "fvmulti.c"\n',
                     extra_options=be_opts + ['noyywrap'] + list(extra_opts))
     # the default rule's ECHO would write the unmatched bytes to stdout
+    tables = [o for o in extra_opts if o.startswith('tables-file=')]
     if backend == 'r':
-        lex = '%top{\n#define yyecho() do {} while (0)\n}\n' + lex
+        lex = '%top{\n#define yyecho() do {} while (0)\n' + ('#define FVM_TABLES %s\n' % tables[0].split('=', 1)[1] if tables else '') + '}\n' + lex
     elif backend == 'c99':
         lex = '%top{\n#define FVM_C99 1\n}\n' + lex
     lf = os.path.join(work, name + '.l'); cf = os.path.join(work, name + ('.cc' if backend == 'cxx' else '.c')); exe = os.path.join(work, name + '.exe')
@@ -63,6 +64,10 @@ def _job(job):
     topt = rng.choice([['-Cem'], ['-Cf'], ['-CF'], ['-C'], ['-Ce']])
     opts = rng.choice([[], ['yylineno'], ['array'], ['stack']])
     backend = rng.choice(['r', 'r', 'c99', 'cxx'])
+    if backend == 'r' and rng.random() < 0.4:
+        # serialized tables: loaded once into file-scope pointers all instances share, freed once at the very end -
+        # an instance that ends (and is destroyed) must not take them away from the others
+        opts = opts + ['tables-file="%s"' % os.path.join(work, 'c12_%d.tables' % idx)]
     res = {'idx': idx, 'problems': [], 'runs': 0, 'topt': topt, 'opts': opts, 'backend': backend}
     exe, lex, err = build(flex, src, work, 'c12_%d' % idx, rs, seed, opts, topt=topt, backend=backend)
     res['lex'] = lex
@@ -109,7 +114,7 @@ def _job(job):
                         break
     res['status'] = 'ok'
     for f in ('c12_%d' % idx, 'c12t_%d' % idx):
-        for ext in ('.l', '.c', '.cc', '.exe'):
+        for ext in ('.l', '.c', '.cc', '.exe', '.tables'):
             try:
                 os.unlink(os.path.join(work, f + ext))
             except OSError:
